@@ -187,6 +187,10 @@ func (p *ProbeImpl) Relay(tok probe.Token) (probe.Token, error) {
 	return q.Echo(tok)
 }
 
+// OnLabelChange accepts every value (label is a property of another type,
+// whose values may be large).
+func (p *ProbeImpl) OnLabelChange(v string) error { return nil }
+
 // OnGaugeChange accepts every value (gauge is the object's second property).
 func (p *ProbeImpl) OnGaugeChange(v int32) error { return nil }
 
